@@ -273,7 +273,7 @@ class Run:
                 body = "-Q theories TL\n" + "\n".join(files) + "\n"
                 if not os.path.exists(proj) or open(proj).read() != body or not os.path.exists(os.path.join(COQ, f"Makefile.{self.prop}")):
                     open(proj, "w").write(body)
-                    sh(["coq_makefile", "-f", proj, "-o", f"Makefile.{self.prop}"], timeout=60, cwd=COQ)
+                    sh(["coq_makefile", "-f", f"_CoqProject.{self.prop}", "-o", f"Makefile.{self.prop}"], timeout=60, cwd=COQ)
                 rc, out, err = sh(["make", "-f", f"Makefile.{self.prop}", "-j16"] + list(targets), timeout=1800, cwd=COQ)
         finally:
             fcntl.flock(lock, fcntl.LOCK_UN)
